@@ -152,6 +152,34 @@ Proof.
   split; [exact cfg0_wf|]. split; [exact s0_reachable|]. vm_compute. repeat split.
 Qed.
 
+(* ---- table maintenance (Server.TableMaintainer: model/Maint.v) writes liveness state only ----
+   ids, addresses and bucket slots of the entries - hence the number of entries, every bucket's size and the placement
+   of every entry - are the same after a pass of the maintainer as before it, for every outcome of every ping, provided
+   the refresh traversals (packet-path traffic, covered by C05_inv above) keep them. *)
+From Dht Require Import Maint MaintProofs.
+Section C05_maintenance.
+  Variable id_secure : N -> bytes -> bool.
+  Variable cfg : config.
+  Variable now : Z.
+  Variable answers : node -> bool.
+  Variable refresh : nat -> list node -> list node.
+
+  Theorem C05_maint_pass_keeps_structure nodes :
+    shape_preserving refresh ->
+    map shape (snd (pass id_secure cfg now answers refresh nodes)) = map shape nodes.
+  Proof. exact (pass_from_shape id_secure cfg nbuckets 0 now answers refresh nodes). Qed.
+
+  Theorem C05_maint_pass_keeps_bucket_sizes nodes i :
+    shape_preserving refresh ->
+    length (bucket (snd (pass id_secure cfg now answers refresh nodes)) i) = length (bucket nodes i).
+  Proof.
+    exact (fun H => bucket_length_shape _ _ i (pass_from_shape id_secure cfg nbuckets 0 now answers refresh nodes H)).
+  Qed.
+
+  Theorem C05_maint_answered_refresh_keeps_structure answersf : shape_preserving (refresh_answering id_secure cfg now answersf).
+  Proof. exact (fun i l => refresh_answering_shape id_secure cfg now answersf i l). Qed.
+End C05_maintenance.
+
 (* ---- pins: constants the property names, as found in /repo now ---- *)
 Example C05_pin_k : table_k = 8%Z /\ table_k_ok = true /\ K = 8%nat.
 Proof. repeat split. Qed.
@@ -174,3 +202,6 @@ Print Assumptions C05_nodesfile_relation_without_security.
 Print Assumptions C05_nodesfile_accept_wf.
 Print Assumptions C05_nodesfile_every_serial_order_accepted.
 Print Assumptions C05_nodesfile_rejects_zero_and_insecure.
+Print Assumptions C05_maint_pass_keeps_structure.
+Print Assumptions C05_maint_pass_keeps_bucket_sizes.
+Print Assumptions C05_maint_answered_refresh_keeps_structure.
